@@ -566,7 +566,15 @@ def truncation_formula(ctx, facts):
     dom = f_.dominators()
     ret = flow.strip_casts(flow.expr_of(f_, {"cp": [0]}, max_depth=30))
     loopv = ret if ret[0] == "proj" and "Iterator::next" in str(ret) else None
-    start_ok = loopv is not None and "('agg', ('std::ops::RangeFrom', 'RangeFrom'), (('arg', 1),))" in str(loopv)
+    start_ok = False
+    if loopv is not None:
+        from rules.C13 import ieval as _ie, NoEval as _NE
+        from rules.C14 import malsec_leaves_all
+        starts = [x[2][0] for x in malsec_leaves_all(loopv) if x[0] == "agg" and x[1] == ("std::ops::RangeFrom", "RangeFrom")]
+        try:
+            start_ok = len(starts) == 1 and all(_ie(starts[0], {("arg", 1): d}) == d for d in range(1, 8))      # `big_delta..`, or anything equal to it for big_delta >= 1
+        except _NE:
+            start_ok = False
     ctx.ob("SHAPE-eq11", "find_smallest_n:scan-from-big_delta", start_ok, "n = big_delta, big_delta + 1, .." if start_ok else "the search for the truncation point does not scan n upwards from big_delta and return the scanned value", site_of(f_))
     pred = None
     for tgt, fct in flow.edge_guards(f_):
@@ -612,9 +620,11 @@ def truncation_formula(ctx, facts):
     rng = [(bb, t) for bb, t in r_.calls() if (F.callee(t)[0] or "").endswith("RangeInclusive::<Idx>::new")]
     okr = False
     if len(rng) == 1:
+        from rules.C13 import ieval as _ie2, NoEval as _NE2
         try:
-            okr = all(iev(flow.expr_of(r_, rng[0][1]["args"][0], max_depth=20), {("arg", 1): n, ("arg", 2): d}) == n - d + 1 and iev(flow.expr_of(r_, rng[0][1]["args"][1], max_depth=20), {("arg", 1): n, ("arg", 2): d}) == n for n in (5, 17, 100) for d in (1, 2, 5))
-        except NoFloat:
+            # evaluated where the search calls it: n >= big_delta >= 1
+            okr = all(_ie2(flow.expr_of(r_, rng[0][1]["args"][0], max_depth=20), {("arg", 1): n, ("arg", 2): d}) == n - d + 1 and _ie2(flow.expr_of(r_, rng[0][1]["args"][1], max_depth=20), {("arg", 1): n, ("arg", 2): d}) == n for d in (1, 2, 3, 5) for n in (d, d + 1, d + 4, 17, 100))
+        except _NE2:
             okr = False
     ctx.ob("SHAPE-eq11", "right_hand_side:sum-range", okr, "k runs over n-big_delta+1 ..= n" if okr else "the tail sum does not run over k = n-big_delta+1 ..= n (inclusive): one term too few / too many changes the certified delta", site_of(r_, rng[0][0]) if rng else site_of(r_))
     acc = False
